@@ -262,6 +262,25 @@ Theorem C07_hex_base_vectors :
 Proof. exact hex_base_vectors. Qed.
 Print Assumptions C07_hex_base_vectors.
 
+(* "a1 carries the unit cell across the first-listed plane, a2 across the
+   third-listed plane": the vectors returned (sheared or not) map the plane listed
+   second onto the plane listed first and the plane listed fourth onto the plane
+   listed third, so the element (1,0,0) touches the cell along the first-listed
+   plane and (0,1,0) along the third-listed one *)
+Theorem C07_base_vector_carries_opposite_plane :
+  forall (c u : rvec) (w : nat -> rvec) (l : list nat) (surfs : list rsurf),
+  In l all_listings ->
+  (forall i, (i < 6)%nat -> carries u w (pl surfs i) (side_at l i)) ->
+  (forall i, (i < 6)%nat -> sd surfs i = planeSide RS c (pl surfs i) /\ sd surfs i <> 0%Z) ->
+  (forall k, wv w (k + 3) = vsub (vscale 2 c) (wv w k)) ->
+  ((forall k, 0 < det3 (vsub (wv w (k + 1)) (wv w k)) (vsub (wv w (k + 2)) (wv w (k + 1))) u) \/
+   (forall k, det3 (vsub (wv w (k + 1)) (wv w k)) (vsub (wv w (k + 2)) (wv w (k + 1))) u < 0)) ->
+  forall (nrm q : rvec), dot u nrm <> 0 ->
+    (on_plane q (pl surfs 1) -> on_plane (vadd q (proj_par u nrm (across c w (side_at l 0)))) (pl surfs 0)) /\
+    (on_plane q (pl surfs 3) -> on_plane (vadd q (proj_par u nrm (across c w (side_at l 2)))) (pl surfs 2)).
+Proof. exact base_vector_carries_opposite_plane. Qed.
+Print Assumptions C07_base_vector_carries_opposite_plane.
+
 (* the regular hexagon c +- e1, c +- (e1/2 + h e2), c +- (-e1/2 + h e2)
    (e1, e2 perpendicular of equal length, h = sqrt 3 / 2) and all its affine
    images (any e1, e2 independent modulo u, any h > 0) belong to the family *)
